@@ -72,6 +72,13 @@ def run():
         ("{|nil| nil}(3)", "val:3"), ("{|true, false| [true, false]}(1, 2)", "val:[1, 2]"), ("{|| false := 'local; false}()", 'val:"local"'), ("{|x, nil: 7| [x, nil]}(1)", "val:[1, 7]"),
         ("{|x, true: 7| [x, true, \\true]}(1, true: 8)", "val:[1, 8, 8]"), ("f := {|nil| {|| nil}}; f(5)()", "val:5"), ("o := {m: m{|false| [self.k, false]}, k: 1}; o.m(9)", "val:[1, 9]"),
         ("[1, 2]@{|nil| nil * 2}", "val:[2, 4]"), ("{|a| nil := a + 1; [nil, nil == 3]}(2)", "val:[3, true]"),
+        # every element call of a list / reduce chain is a call of its own: what one element's body assigns is not there for the next one, closures made per element keep their own frame
+        ("n := 0; r := [1, 2, 3]@{|x| n := n + x; n}; [r, n]", "val:[[1, 2, 3], 0]"), ("n := 0; r := [1, 2, 3]@{|x| n += x; n}; [r, n]", "val:[[1, 2, 3], 0]"),
+        ("fs := [10, 20, 30]@{|x| {|| x}}; fs@{|f| f()}", "val:[10, 20, 30]"), ("fs := [10, 20, 30]@{|x| y := x + 1; {|| y}}; fs@{|f| f()}", "val:[11, 21, 31]"),
+        ("[1, 2, 3]@{|x| seen := nil.try.{|u| prev}.val; prev := x; seen}", "val:[]"), ("[1, 2, 3]=@{|x| seen := nil.try.{|u| prev}.val; prev := x; seen}", "val:[nil, nil, nil]"),
+        ("[1, 2, 3]$(0){|acc, x| t := acc + x; t}", "val:6"), ("[1, 2, 3]$([]){|acc, x| seen := nil.try.{|u| prev}.val; prev := x; [*acc, seen]}", "val:[nil, nil, nil]"),
+        ("g := {|x| c := nil.try.{|u| c}.val; c := x; c}; [1, 2]@^g", "val:[1, 2]"), ("o := {m: m{|d: 0| k := nil.try.{|u| k}.val; k := 1; k}}; [o, o]@m", "val:[1, 1]"),
+        ("fs := (1:4)@{|x| {|| x * 2}}; fs@{|f| f()}", "val:[2, 4, 6]"), ("fs := {a: 1, b: 2}@{|k, v| {|| [k, v]}}; fs@{|f| f()}", 'val:[["a", 1], ["b", 2]]'),
     ]
     iout = run_cases([{"id": f"s{k}", "src": src} for k, (src, _) in enumerate(iter_scopes)], label="C03 iterator bodies")
     for k, (src, want) in enumerate(iter_scopes):
